@@ -20,7 +20,8 @@ type PathPlan struct {
 	Init  [][2]any `json:"init"`  // [k, v]
 	Level int      `json:"level"` // -1 in memory; L: Commit(L) to storage first; 100+L: Commit(L), then re-opened from (root, weight)
 	Req   []int    `json:"req"`
-	Ops   []WOp    `json:"ops"` // update / delete on requested keys
+	Ops   []WOp    `json:"ops"`             // update / delete on requested keys
+	Scale uint64   `json:"scale,omitempty"` // weight scale (0 = chosen by trace number); set by replays
 }
 
 // PathStats collects coverage.
@@ -45,6 +46,9 @@ func RunPath(w *tr.Writer, in *tr.Interner, st *PathStats, tid int, p PathPlan) 
 	full := wmpt.New(nil, db)
 	// real weights are the scenario's small weights times a per-trace scale (see wrun.scale)
 	scaler := &wrun{scale: []uint64{1, 1000, 1, 1 << 20, 1<<33 + 7, 1, 1 << 40}[tid%7]}
+	if p.Scale != 0 {
+		scaler.scale = p.Scale
+	}
 	S := scaler.scale
 	ukeys := UniverseKeys(p.Uni, p.Sub)
 	keyOf := func(i int) []byte {
@@ -81,7 +85,11 @@ func RunPath(w *tr.Writer, in *tr.Interner, st *PathStats, tid int, p PathPlan) 
 		w.Emit(ev)
 		st.Events++
 	}
-	emit(map[string]any{"op": "reset", "init": initEv, "level": p.Level, "empty": in.ID(bridge.EmptyState)})
+	psub := p.Sub
+	if psub == nil {
+		psub = []int{}
+	}
+	emit(map[string]any{"op": "reset", "init": initEv, "level": p.Level, "empty": in.ID(bridge.EmptyState), "uni": p.Uni, "sub": psub, "scale": S})
 	// export
 	var keys [][]byte
 	for _, i := range p.Req {
@@ -137,6 +145,7 @@ func RunPath(w *tr.Writer, in *tr.Interner, st *PathStats, tid int, p PathPlan) 
 			}
 			ev["w"] = wt
 			ev["v"] = string(val)
+			ev["tok"] = op.V
 			ev["fres"] = Guard(func() string {
 				if err := full.Update(keyOf(op.K), val, wt*S); err != nil {
 					if err == wmpt.ErrNotFound {
